@@ -13,7 +13,9 @@ TEXTS = ["a", "b1", "a.b", "a/b", "a b", "a]b", "a[b", "a(b", "a)b", "a'b",
          'a"b', "a^b", "a$b", "a%b", "a\\b", "ab c.", "a ", " a", " ",
          # a literal * (only expressible demarcated) and a leading &
          "a*b", "*", "**", "a*", "*a.b", "&a", "&", "a*[b", "a*'b)",
-         "a\\\\b"]
+         "a\\\\b",
+         # a leading + or - (a Collector operator when it follows a Collector)
+         "-b", "+b", "-"]
 OPERANDS = ["a", "b1", "a b", "a.b", "a/b", "a]b", "a'b", "a=b", "a!b",
             "a<b", "a~b", "a%b", "a\\b", "'a", 'a"', "a ", "it's \"x\""]
 S = "search"
